@@ -419,8 +419,10 @@ def as_v(x) -> V:
     if isinstance(x, (int, Fraction)):
         return V(Poly.const(x))
     if isinstance(x, float):
-        if math.isnan(x) or math.isinf(x):
-            raise ValueError(f"non-finite literal {x}")
+        if math.isnan(x):
+            return poison("nan")  # e.g. fill values of out-of-bounds gathers: must never reach a result
+        if math.isinf(x):
+            return pos_inf() if x > 0 else -pos_inf()
         return V(Poly.const(snap(x)))
     # numpy scalars
     try:
@@ -669,6 +671,10 @@ def atom_pow(base: V, expo: V) -> V:
     return _atom("pow", (base.p.key(), expo.p.key()), "pow", build)
 
 
+def poison(tag) -> V:
+    return _atom("poison", tag, "poison", lambda: _mk_atom("poison", f"POISON_{tag}", ()))
+
+
 def pos_inf() -> V:
     return _atom("inf", (), "inf", lambda: _mk_atom("inf", "+inf", (), positive=True))
 
@@ -790,6 +796,9 @@ def ite(c: B, a: V, b: V) -> V:
         return a if c.value() else b
     if a.p.key() == b.p.key():
         return a
+    # ite(x == 0, 0, x) == x   (the "-0.0 -> 0.0" canonicalisation idiom of jnp)
+    if c.op == "eq" and a.p.is_zero() and (c.args[0].p.key() == b.p.key() or c.args[0].p.key() == (-b.p).key()):
+        return b
 
     def build():
         at = _mk_atom("ite", f"ite{len(SYMS)}", (c, a, b))
